@@ -38,12 +38,17 @@ CONSTANTS
                   \* currentVersion.  "wr+1" is what the pinned code does
                   \* (currentVersion = writtenVersion + 1); "cur+1" is the
                   \* intended design: every dirty release gets a new version.
-  WriteGuards,    \* subset of BOOLEAN.  FALSE = the pinned code: a handle
-                  \* whose write is in flight may be queued, dequeued and
-                  \* deleted from the map like any other.  TRUE = intended
-                  \* design: removeOrQueueForWriteLocked() leaves a handle
-                  \* alone while one of its writes is in flight; the
-                  \* completion of the write re-evaluates it.
+  WriteGuards,    \* subset of 0 .. 2, the guards of removeOrQueueForWriteLocked().
+                  \* 0 = the pinned code: a handle whose write is in flight
+                  \* may be queued, dequeued and deleted from the map like
+                  \* any other.  1 = (repair F6) a handle is left alone
+                  \* while one of its writes is in flight; the completion
+                  \* of the write re-evaluates it.  2 = intended design
+                  \* (repair F11): in addition a clean handle stays in the
+                  \* map while a Get() that found no handle is reading its
+                  \* digest from the backing store - that Get() may have
+                  \* read before the handle's content was written, so it
+                  \* must adopt the handle instead of inserting what it read.
   ReuseSlots,     \* BOOLEAN: model-checking aid, reuse the ids of
                   \* unreachable handles (FALSE when validating traces)
   EagerFinish,    \* BOOLEAN: TRUE = the last lock section of Get() follows
@@ -68,16 +73,27 @@ vars == <<st, an, hist>>
 (* st.th      per thread: pc and the locals of Get()                       *)
 (*              pc  "idle" | "get" (inside Get) | "hold" (owns a reference)*)
 (*              ex  hasExistingHandle;  h handle id;  rc content read      *)
+(*                                                                         *)
+(* Content (c, rc, backing, latest) is the SET of updates (dirty releases, *)
+(* numbered 1, 2, ...) a message incorporates: a handle created from a     *)
+(* stale read lacks the updates it did not see, and a dirty release adds   *)
+(* one update to whatever the handle's message was based on.               *)
 (*              ops in-flight BlobAccess calls of this Get:                *)
 (*                  [k |-> "r"|"w", h, c, v = writingVersion,              *)
 (*                   st |-> "flight" | "applied"]                          *)
 (* st.ng, st.nu  bounds bookkeeping                                        *)
 (***************************************************************************)
 
-DeadHandle == [dg |-> NoDigest, use |-> 0, wr |-> 0, cur |-> 0, c |-> 0]
+DeadHandle == [dg |-> NoDigest, use |-> 0, wr |-> 0, cur |-> 0, c |-> {}]
 IdleThread == [pc |-> "idle", dg |-> NoDigest, h |-> 0, ex |-> FALSE,
-               ops |-> {}, err |-> FALSE, rc |-> 0]
-ReadOp == [k |-> "r", h |-> 0, c |-> 0, v |-> 0, st |-> "flight"]
+               ops |-> {}, err |-> FALSE, rc |-> {}]
+ReadOp == [k |-> "r", h |-> 0, c |-> {}, v |-> 0, st |-> "flight"]
+
+\* Content sets as bit masks (update u = bit u), the form in which the Go
+\* driver stores them in a message and schedules name a pending Put.
+RECURSIVE Mask(_)
+Mask(s) == IF s = {} THEN 0 ELSE LET x == CHOOSE y \in s : TRUE IN 2 ^ x + Mask(s \ {x})
+Bits(n) == {i \in 1 .. 30 : (n \div (2 ^ i)) % 2 = 1}
 
 InQueue(q, h) == \E i \in 1 .. Len(q) : q[i] = h
 IndexOf(q, h) == CHOOSE i \in 1 .. Len(q) : q[i] = h
@@ -112,11 +128,16 @@ NewId(S) ==
   THEN CHOOSE h \in 1 .. Len(S.hs) : S.hs[h] = DeadHandle /\ \A g \in 1 .. (h - 1) : S.hs[g] # DeadHandle
   ELSE Len(S.hs) + 1
 
-\* removeOrQueueForWriteLocked(); g = write guard in force
+\* Get() calls that found no handle for d and have not finished yet
+\* (store.readsInProgress[d]).
+Readers(S, d) == {t \in Threads : S.th[t].pc = "get" /\ ~S.th[t].ex /\ S.th[t].dg = d}
+
+\* removeOrQueueForWriteLocked(); g = guards in force
 ROQ(S, h, g) ==
-  IF S.hs[h].use # 0 \/ (g /\ Writing(S, h)) THEN S
+  IF S.hs[h].use # 0 \/ (g >= 1 /\ Writing(S, h)) THEN S
   ELSE IF S.hs[h].wr = S.hs[h].cur
-       THEN [S EXCEPT !.hmap[S.hs[h].dg] = 0]       \* delete(ss.handles, sh.digest)
+       THEN IF g >= 2 /\ Readers(S, S.hs[h].dg) # {} THEN S   \* retained for the readers
+            ELSE [S EXCEPT !.hmap[S.hs[h].dg] = 0]       \* delete(ss.handles, sh.digest)
        ELSE IF InQueue(S.queue, h) THEN S
             ELSE [S EXCEPT !.queue = Append(@, h)]
 
@@ -125,7 +146,7 @@ DecUse(S, h, g) == ROQ([S EXCEPT !.hs[h].use = @ - 1], h, g)
 
 StoreInit0 ==
   [hs |-> <<>>, hmap |-> [d \in Digests |-> 0], queue |-> <<>>,
-   backing |-> [d \in Digests |-> 0], latest |-> [d \in Digests |-> 0],
+   backing |-> [d \in Digests |-> {}], latest |-> [d \in Digests |-> {}],
    th |-> [t \in Threads |-> IdleThread], ng |-> 0, nu |-> 0]
 
 -----------------------------------------------------------------------------
@@ -149,7 +170,7 @@ Do_GetStart(S, t, d) ==
   IN Norm([S1 EXCEPT !.queue = SubSeq(q1, 1, Len(q1) - k),
                      !.th[t] = [pc |-> IF ops = {} THEN "hold" ELSE "get",
                                 dg |-> d, h |-> IF e THEN h ELSE 0, ex |-> e,
-                                ops |-> ops, err |-> FALSE, rc |-> 0],
+                                ops |-> ops, err |-> FALSE, rc |-> {}],
                      !.ng = @ + 1])
 
 \* The backing store answers the read of a Get() that found no handle
@@ -157,7 +178,7 @@ Do_GetStart(S, t, d) ==
 En_ReadDone(S, t) == S.th[t].pc = "get" /\ ReadOp \in S.th[t].ops
 Do_ReadDone(S, t, ok) ==
   [S EXCEPT !.th[t].ops = @ \ {ReadOp},
-            !.th[t].rc = IF ok THEN S.backing[S.th[t].dg] ELSE 0,
+            !.th[t].rc = IF ok THEN S.backing[S.th[t].dg] ELSE {},
             !.th[t].err = @ \/ ~ok]
 
 IsWrite(S, t, o, s) == S.th[t].pc = "get" /\ o \in S.th[t].ops /\ o.k = "w" /\ o.st = s
@@ -185,7 +206,11 @@ En_GetFinish(S, t) == S.th[t].pc = "get" /\ S.th[t].ops = {}
 Do_GetFinish(S, t, g) ==
   LET d == S.th[t].dg IN
   IF S.th[t].err
-  THEN Norm([(IF S.th[t].ex THEN DecUse(S, S.th[t].h, g) ELSE S) EXCEPT !.th[t] = IdleThread])
+  THEN IF S.th[t].ex
+       THEN Norm([DecUse(S, S.th[t].h, g) EXCEPT !.th[t] = IdleThread])
+       ELSE \* the last reader to give up re-evaluates a handle retained for it
+            LET S1 == [S EXCEPT !.th[t] = IdleThread] IN
+              Norm(IF g >= 2 /\ Readers(S1, d) = {} /\ S1.hmap[d] # 0 THEN ROQ(S1, S1.hmap[d], g) ELSE S1)
   ELSE IF S.th[t].ex
   THEN [S EXCEPT !.th[t].pc = "hold"]
   ELSE IF S.hmap[d] # 0
@@ -205,9 +230,9 @@ Do_Release(S, t, dirty, rule, g) ==
   LET h == S.th[t].h
       d == S.hs[h].dg
       S1 == IF dirty
-            THEN [S EXCEPT !.hs[h].c = S.latest[d] + 1,
+            THEN [S EXCEPT !.hs[h].c = @ \cup {S.nu + 1},
                            !.hs[h].cur = NewVersion(rule, S.hs[h].wr, S.hs[h].cur),
-                           !.latest[d] = @ + 1,
+                           !.latest[d] = @ \cup {S.nu + 1},
                            !.nu = @ + 1]
             ELSE S
   IN Norm([DecUse(S1, h, g) EXCEPT !.th[t] = IdleThread])
@@ -230,11 +255,11 @@ StoreNext ==
          /\ st' = Fin(Do_ReadDone(st, t, ok), t, g) /\ Rec(Lbl("rd", t, st.th[t].dg, 0, ok))
     \/ \E o \in st.th[t].ops :
          \/ /\ En_PutApply(st, t, o)
-            /\ st' = Do_PutApply(st, t, o) /\ Rec(Lbl("wa", t, st.hs[o.h].dg, o.c, TRUE))
+            /\ st' = Do_PutApply(st, t, o) /\ Rec(Lbl("wa", t, st.hs[o.h].dg, Mask(o.c), TRUE))
          \/ /\ En_WriteDone(st, t, o)
-            /\ st' = Fin(Do_WriteDone(st, t, o, g), t, g) /\ Rec(Lbl("wd", t, st.hs[o.h].dg, o.c, TRUE))
+            /\ st' = Fin(Do_WriteDone(st, t, o, g), t, g) /\ Rec(Lbl("wd", t, st.hs[o.h].dg, Mask(o.c), TRUE))
          \/ /\ En_WriteFail(st, t, o)
-            /\ st' = Fin(Do_WriteFail(st, t, o, g), t, g) /\ Rec(Lbl("wa", t, st.hs[o.h].dg, o.c, FALSE))
+            /\ st' = Fin(Do_WriteFail(st, t, o, g), t, g) /\ Rec(Lbl("wa", t, st.hs[o.h].dg, Mask(o.c), FALSE))
     \/ /\ ~EagerFinish /\ En_GetFinish(st, t)
        /\ st' = Do_GetFinish(st, t, g) /\ Rec(Lbl("fin", t, st.th[t].dg, 0, TRUE))
     \/ \E dirty \in BOOLEAN : \E r \in VersionRules :
@@ -263,28 +288,36 @@ QueuedInMap(S) == \A i \in 1 .. Len(S.queue) : S.hmap[S.hs[S.queue[i]].dg] = S.q
 Drained(S) == S.queue = <<>> /\ \A t \in Threads : S.th[t].pc = "idle"
 
 \* NO LOST UPDATE: once nothing is queued, in flight or in use, the backing
-\* store holds the content of the last dirty release.
+\* store holds every update that was released.
 NoLostUpdate(S) == Drained(S) => \A d \in Digests : S.backing[d] = S.latest[d]
 
 \* Content that has not reached the backing store is carried by a reachable
 \* handle that is in use, queued, or has a write in flight whose completion
 \* re-evaluates it (so that a failed write is queued again).
 Carried(S, d) ==
-  \/ S.backing[d] = S.latest[d]
-  \/ \E h \in 1 .. Len(S.hs) :
-       /\ S.hs[h].dg = d /\ S.hs[h].c = S.latest[d]
+  \A u \in S.latest[d] \ S.backing[d] :
+    \E h \in 1 .. Len(S.hs) :
+       /\ S.hs[h].dg = d /\ u \in S.hs[h].c
        /\ \/ S.hs[h].use > 0
           \/ InQueue(S.queue, h)
           \/ Writing(S, h)
 PendingCarried(S) == \A d \in Digests : Carried(S, d)
+
+\* A handle stays in the map only for a reason: it is in use, queued, being
+\* written, or retained for a Get() that is reading its digest.
+NoOrphanHandle(S) ==
+  \A d \in Digests : S.hmap[d] # 0 =>
+    LET h == S.hmap[d] IN
+      S.hs[h].use > 0 \/ InQueue(S.queue, h) \/ Writing(S, h) \/ Readers(S, d) # {}
 
 C07_UseCountBalance == UseCountBalance(st)
 C07_InUseInMap      == InUseInMap(st)
 C07_QueuedInMap     == QueuedInMap(st)
 C07_NoLostUpdate    == NoLostUpdate(st)
 C07_PendingCarried  == PendingCarried(st)
+NoOrphan            == NoOrphanHandle(st)
 \* A write never replaces newer content with older content.
-C07_MonotonicWrites == [][\A d \in Digests : st'.backing[d] >= st.backing[d]]_vars
+C07_MonotonicWrites == [][\A d \in Digests : st.backing[d] \subseteq st'.backing[d]]_vars
 
 (***************************************************************************)
 (*             PART A: selector / learner state machine                    *)
